@@ -602,7 +602,9 @@ impl cv::SimKernel for Kernel {
         if w.violation.is_some() {
             return Err(nix::Error::ECHILD);
         }
-        if pid != -1 {
+        // pid == -1: any child; pid < -1: any child of that process group; other forms are not used by cicada
+        let group: Option<i32> = if pid < -1 { Some(-pid) } else { None };
+        if pid != -1 && group.is_none() {
             w.violate("harness_unexpected", format!("waitpid({})", pid));
             return Err(nix::Error::ECHILD);
         }
@@ -629,7 +631,7 @@ impl cv::SimKernel for Kernel {
             }
         }
         loop {
-            let r = w.reportable();
+            let r: Vec<usize> = w.reportable().into_iter().filter(|i| group.map_or(true, |g| w.procs[*i].pgid == g)).collect();
             if !r.is_empty() {
                 let i = w.choose_report(&r);
                 let name = w.pname(w.procs[i].pid);
@@ -677,7 +679,7 @@ impl cv::SimKernel for Kernel {
                 };
                 return Ok(res);
             }
-            if !w.procs.iter().any(|p| !matches!(p.state, PState::Reaped(_))) {
+            if !w.procs.iter().any(|p| !matches!(p.state, PState::Reaped(_)) && group.map_or(true, |g| p.pgid == g)) {
                 w.ev("wait-> ECHILD".to_string());
                 return Err(nix::Error::ECHILD);
             }
